@@ -10,7 +10,9 @@
 (*                                                                         *)
 (* step = [grp, fee, fam, pol, ver, pad, ins <<[kind, v, slot]>>,           *)
 (*         outs <<[kind, v, slot]>>, chans <<[val, outbound, push, commit, at]>>, *)
-(*         listed, xpub, approve, jump]                                     *)
+(*         listed, xpub, approve, jump, sign]                               *)
+(* sign: the harness also lets the real node SIGN the transaction and      *)
+(* measures the weight of the finalised transaction (group G10).           *)
 (***************************************************************************)
 EXTENDS Onchain, SequencesExt
 
@@ -42,7 +44,7 @@ GoodChansFor(outs) ==
 Skel(pol, inKinds, outs, chans, listed, xpub) ==
   [pol |-> pol, ver |-> 2, pad |-> 0,
    ins |-> [k \in 1..Len(inKinds) |-> [kind |-> inKinds[k], v |-> Big0, slot |-> 0]],
-   outs |-> outs, chans |-> chans, listed |-> listed, xpub |-> xpub, ownxpub |-> FALSE]
+   outs |-> outs, chans |-> chans, listed |-> listed, xpub |-> xpub, ownxpub |-> FALSE, sign |-> FALSE]
 
 \* inputs 2.. carry k satoshi each, input 1 the rest of `total`
 Oth(sk) == SumInt([k \in 1..Len(sk.ins) |-> k], LAMBDA k : IF k = 1 THEN 0 ELSE k)
@@ -53,9 +55,12 @@ SetIns(sk, total) ==
                          v |-> IF k = 1 THEN BSub(total, B(Oth(sk))) ELSE B(k)]]]
 SumOuts(sk) == SumBig(sk.outs, LAMBDA o : o.v)
 
-CW(sk) == CodeWeight(Facts(sk))
+\* the weight the code at HEAD divides by (flat witness charge, see Onchain!Sw) / the intended algorithm's
+CW(sk)  == CodeWeight(Facts(sk), TRUE)
+CWi(sk) == CodeWeight(Facts(sk), FALSE)
 \* largest value the code's fee-rate rule accepts: (nb*1000+999) div W <= maxfr
-CapCode(sk) == BSub(BDiv(BMul(B(CW(sk)), sk.pol.maxfr + 1), 1000), B(1))
+CapOf(sk, W) == BSub(BDiv(BMul(B(W), sk.pol.maxfr + 1), 1000), B(1))
+CapCode(sk) == CapOf(sk, CW(sk))
 \* largest value the reference does not refuse
 RefCap(sk)  == BSub(FeeFloor(Facts(sk)), B(1))
 \* true rate 2^32 + r per kw: the class the `as u32` cast maps to rate r
@@ -75,12 +80,18 @@ FeeSpecs ==
 BurnSpecs ==
   { [n |-> "out1", fam |-> "burn"], [n |-> "out1+cap", fam |-> "burn"], [n |-> "out1+cap+1", fam |-> "burn"],
     [n |-> "outL+cap", fam |-> "burn"] }
-FS(n) == CHOOSE f \in FeeSpecs \cup BurnSpecs : f.n = n
+\* more edges around the weight-dependent bound (group G10): just below the reference's cap, and the cap
+\* of the intended algorithm where it differs from HEAD's
+WeightSpecs ==
+  { [n |-> "rcap-1", fam |-> "cap"], [n |-> "icap", fam |-> "cap"], [n |-> "icap+1", fam |-> "cap"] }
+FS(n) == CHOOSE f \in FeeSpecs \cup BurnSpecs \cup WeightSpecs : f.n = n
 IsUnder(f) == f.fam = "under"
 Fee(sk, n) ==
   CASE n = "zero" -> Big0 [] n = "one" -> B(1) [] n = "half" -> BDiv(CapCode(sk), 2)
     [] n = "cap-1" -> BSub(CapCode(sk), B(1)) [] n = "cap" -> CapCode(sk) [] n = "cap+1" -> BAdd(CapCode(sk), B(1))
     [] n = "rcap" -> RefCap(sk) [] n = "rcap+1" -> BAdd(RefCap(sk), B(1)) [] n = "2rcap" -> BMul(RefCap(sk), 2)
+    [] n = "rcap-1" -> BSub(RefCap(sk), B(1))
+    [] n = "icap" -> CapOf(sk, CWi(sk)) [] n = "icap+1" -> BAdd(CapOf(sk, CWi(sk)), B(1))
     [] n = "w32+0" -> W32(sk, 0) [] n = "w32+3" -> W32(sk, 3) [] n = "w32+max" -> W32(sk, sk.pol.maxfr - 5)
     [] n = "w32+over" -> W32(sk, sk.pol.maxfr + 5)
     [] n = "w64-1" -> BSub(N64, B(1)) [] n = "w64+0" -> N64 [] n = "w64+9" -> BAdd(N64, B(9))
@@ -330,7 +341,35 @@ G9bad ==
     : ap \in BOOLEAN} : ic \in {<<"p2pkh">>, <<"p2wpkh", "p2pkh">>}} : x \in SD}
 G9 == G9good \cup G9bad
 
-Stateless(T) == G1(T) \cup G2(T) \cup G3(T) \cup G4 \cup G5 \cup G7 \cup G8 \cup G9
+\* G10: INPUT KINDS as a dimension of the fee bound.  The weight the fee rate is taken over depends on
+\* what each input will look like once signed (Onchain!FinalWeight): native P2WPKH, P2SH-wrapped P2WPKH
+\* presented with the scriptSig still empty ("p2sh") and with the witness program already pushed
+\* ("p2shS", 92 WU that are then part of the presented weight and must not be charged again), P2PKH
+\* (signature in the scriptSig, 4 WU per byte), taproot key path (one 64-byte signature), a unilateral
+\* close output (P2WSH, given stack), an input somebody else signs - alone, next to a native input
+\* (either order), twice, and (thorough) every ordered pair and three of a kind; no channel is funded,
+\* every output is beneficial, so the fee-rate rule is the only one in play.  Fees: just below / at /
+\* just above the cap the REFERENCE computes from the final weight (rcap-1, rcap, rcap+1), the code's
+\* own edge at HEAD (cap, cap+1) and the intended algorithm's (icap, icap+1), a plainly acceptable one
+\* (half); policies with the fee velocity unlimited (mainnet and testnet maximum rates) and, thorough,
+\* limited.  Every step of this group is also SIGNED by the real node (sign = TRUE): the measured
+\* weight of the finalised transaction validates Onchain!FinalWeight (ImplOnchain, FinalWeightOK).
+G10kinds == {"p2wpkh", "p2sh", "p2shS", "p2pkh", "p2tr", "uck", "odd"}
+G10ins(T) ==
+  {<<k>> : k \in G10kinds} \cup {<<k, k>> : k \in G10kinds \ {"odd"}}
+    \cup {<<"p2wpkh", k>> : k \in G10kinds} \cup {<<k, "p2wpkh">> : k \in G10kinds}
+    \cup (IF T = "quick" THEN {}
+          ELSE {<<k, j>> : k \in G10kinds, j \in G10kinds} \cup {<<k, k, k>> : k \in G10kinds \ {"odd"}}
+                 \cup {<<"p2wpkh", k, k>> : k \in G10kinds})
+G10fees == {FS("half"), FS("rcap-1"), FS("rcap"), FS("rcap+1"), FS("cap"), FS("cap+1"), FS("icap"), FS("icap+1")}
+G10(T) ==
+  LET SK   == IF T = "quick" THEN {<<"W">>, <<"W", "L">>} ELSE {<<>>, <<"W">>, <<"W", "L">>, <<"Wt", "Ws", "X">>}
+      pols == IF T = "quick" THEN {PU, PX} ELSE {PU, PX, PD, PH}
+  IN UNION {UNION {UNION {
+       {[s EXCEPT !.sign = TRUE] : s \in StepsOf("G10", Skel(p, ic, OutsOf(ks), <<>>, TRUE, TRUE), G10fees, TRUE)}
+       : p \in pols} : ic \in G10ins(T)} : ks \in SK}
+
+Stateless(T) == G1(T) \cup G2(T) \cup G3(T) \cup G4 \cup G5 \cup G7 \cup G8 \cup G9 \cup G10(T)
 
 \* G6: sessions on one node under a small hourly fee velocity limit; `jump` moves the clock
 \* past the whole window before the step
@@ -366,7 +405,7 @@ Sessions(T) ==
 AllSessions(T) == {<<s>> : s \in Stateless(T)} \cup Sessions(T)
 
 \* the same matrix in independently computable parts (generated by parallel TLC runs)
-GroupNames == <<"G1a", "G1b", "G1c", "G1d", "G2", "G345", "G6">>
+GroupNames == <<"G1a", "G1b", "G1c", "G1d", "G2", "G345", "G6", "G10">>
 GroupSteps(T, g) ==
   CASE g = "G1a" -> G1part(T, {"", "W", "Ws", "Wt", "Wk", "Wx"})
     [] g = "G1b" -> G1part(T, {"Wl", "Wn", "L", "Lp", "X"})
@@ -374,5 +413,6 @@ GroupSteps(T, g) ==
     [] g = "G1d" -> G1part(T, {"U", "Ut", "Up", "F", "Fb", "Fp"})
     [] g = "G2"  -> G2(T)
     [] g = "G345" -> G3(T) \cup G4 \cup G5 \cup G7 \cup G8 \cup G9
+    [] g = "G10" -> G10(T)
 GroupSessions(T, g) == IF g = "G6" THEN Sessions(T) ELSE {<<s>> : s \in GroupSteps(T, g)}
 =============================================================================
